@@ -50,7 +50,7 @@ def make_skeleton(spec):
     body = ctxt.replace('@', j)
     pre, post = SIBLINGS[spec.get('sib', 'none')]
     src = c10.PRELUDE10 + pre + body + post + '\n'
-    opts = {'optimize': 'sym', 'transform_on': spec.get('jsx') in ('on', 'onC', 'on2')}
+    opts = {'optimize': 'sym', 'enable_object_slots': 'sym', 'transform_on': spec.get('jsx') in ('on', 'onC', 'on2')}
     return Skeleton('c06#%s|%s|%s%s' % (spec['ctx'], spec.get('jsx', 'call'), spec.get('sib', 'none'), '|pragma' if spec.get('pragma') else ''), src, [], opts,
                     pragma=spec.get('pragma'), meta={'family': 'c06'})
 
